@@ -2,8 +2,8 @@ package main
 
 import (
 	"go/ast"
-	"path/filepath"
 	"go/token"
+	"path/filepath"
 	"sort"
 	"strconv"
 	"strings"
@@ -175,6 +175,35 @@ func c07Reaches(funcs map[string][]*ast.FuncDecl, fd *ast.FuncDecl, suffix strin
 	return found
 }
 
+// c07StrConsts: names of the string constants of the package under analysis (set by the generator before c07FsCalls), so
+// that a temp-file suffix given as a named constant (`fn + cIdxTmpFileSuffix`) is recognised like a literal (`fn + ".tmp"`)
+var c07StrConsts = map[string]bool{}
+
+func c07CollectStrConsts(files []*ast.File) {
+	c07StrConsts = map[string]bool{}
+	for _, f := range files {
+		if f == nil {
+			continue
+		}
+		for _, d := range f.Decls {
+			gd, ok := d.(*ast.GenDecl)
+			if !ok || gd.Tok != token.CONST {
+				continue
+			}
+			for _, sp := range gd.Specs {
+				vs := sp.(*ast.ValueSpec)
+				for i, n := range vs.Names {
+					if i < len(vs.Values) {
+						if bl, ok := vs.Values[i].(*ast.BasicLit); ok && bl.Kind == token.STRING {
+							c07StrConsts[n.Name] = true
+						}
+					}
+				}
+			}
+		}
+	}
+}
+
 // c07Role classifies a file-name expression: "dat" (built from datConst), "bak" (from bakConst), "tmp" (a dat name plus
 // a string literal), or "?"; identifiers are looked up in env
 func c07Role(e ast.Expr, env map[string]string, datConst, bakConst string) string {
@@ -191,18 +220,32 @@ func c07Role(e ast.Expr, env map[string]string, datConst, bakConst string) strin
 		}
 	case *ast.BinaryExpr:
 		if x.Op == token.ADD {
-			if _, ok := x.Y.(*ast.BasicLit); ok && c07Role(x.X, env, datConst, bakConst) == "dat" {
+			suffix := false
+			switch y := x.Y.(type) {
+			case *ast.BasicLit:
+				suffix = y.Kind == token.STRING
+			case *ast.Ident: // a named string constant other than the two file names, or a local bound to a literal
+				suffix = (c07StrConsts[y.Name] && y.Name != datConst && y.Name != bakConst) || env[y.Name] == "lit"
+			}
+			if suffix && c07Role(x.X, env, datConst, bakConst) == "dat" {
 				return "tmp"
 			}
 		}
-	case *ast.CallExpr: // path.Join(dir, <const>)
+	case *ast.CallExpr: // path.Join(dir, <const>) / filepath.Join: any other function of a file name is an unknown name
+		if sel := c07Sel(x.Fun); sel != "path.Join" && sel != "filepath.Join" {
+			return "?"
+		}
 		for _, a := range x.Args {
-			if r := c07Role(a, env, datConst, bakConst); r != "?" {
+			if r := c07Role(a, env, datConst, bakConst); r != "?" && r != "lit" {
 				return r
 			}
 		}
 	case *ast.ParenExpr:
 		return c07Role(x.X, env, datConst, bakConst)
+	case *ast.BasicLit:
+		if x.Kind == token.STRING {
+			return "lit"
+		}
 	}
 	return "?"
 }
@@ -343,7 +386,9 @@ func init() {
 		l.p("  | other")
 		l.p("deriving DecidableEq, Repr")
 		var calls []string
-		tfuncs := c07PkgFuncs(c07ParsePkg("pkg/tindex"))
+		tfiles := c07ParsePkg("pkg/tindex")
+		tfuncs := c07PkgFuncs(tfiles)
+		c07CollectStrConsts(tfiles)
 		if fd := funcDecl(tf, "inmemService", "saveStateUnsafe"); fd == nil {
 			problem("tindex.inmemService.saveStateUnsafe not found")
 		} else {
@@ -364,11 +409,67 @@ func init() {
 				case "Remove(bak)":
 					calls = append(calls, ".removeBak")
 				default:
+					// a file-system call on a file whose role (index file / backup / temp file) is not recognised: the step list the
+					// crash theorems talk about would silently lose a step
+					problem("tindex.saveStateUnsafe: file-system call %s is not of a recognised shape", c)
 					calls = append(calls, ".other")
 				}
 			}
 		}
 		l.p("def saveStateCalls : List FsCall := [%s]", strings.Join(calls, ", "))
+		// repair of F-C07-901: getOrCreateJournal refuses to CREATE a partition whose tag line is not valid UTF-8 (a test with
+		// utf8.ValidString / utf8.Valid whose branch returns); F-C07-902: newPPipe refuses a name / condition that is not
+		validGuard := func(fd *ast.FuncDecl, fields []string) bool {
+			if fd == nil || fd.Body == nil {
+				return false
+			}
+			seen := map[string]bool{}
+			guard := false
+			ast.Inspect(fd.Body, func(n ast.Node) bool {
+				is, ok := n.(*ast.IfStmt)
+				if !ok {
+					return true
+				}
+				calls := 0
+				ast.Inspect(is.Cond, func(m ast.Node) bool {
+					if ce, ok := m.(*ast.CallExpr); ok {
+						if sel := c07Sel(ce.Fun); sel == "utf8.ValidString" || sel == "utf8.Valid" {
+							calls++
+							ast.Inspect(ce, func(a ast.Node) bool {
+								if se, ok := a.(*ast.SelectorExpr); ok {
+									seen[se.Sel.Name] = true
+								}
+								return true
+							})
+						}
+					}
+					return true
+				})
+				if calls > 0 {
+					ast.Inspect(is.Body, func(y ast.Node) bool {
+						if _, ok := y.(*ast.ReturnStmt); ok {
+							guard = true
+						}
+						return true
+					})
+				}
+				return true
+			})
+			for _, f := range fields {
+				if !seen[f] {
+					return false
+				}
+			}
+			return guard
+		}
+		gocj := funcDecl(tf, "inmemService", "getOrCreateJournal")
+		if gocj == nil {
+			problem("tindex.inmemService.getOrCreateJournal not found")
+		}
+		l.p("/-- `getOrCreateJournal` refuses to create a partition whose tag line is not valid UTF-8 (repair of F-C07-901: the tag line is")
+		l.p("a key of the JSON object in `tindex.dat`) -/")
+		l.p("def getOrCreateJournalRefusesInvalidUtf8 : Bool := %s", leanBool(validGuard(gocj, nil)))
+
 		l.p("/-- `loadState` mentions the backup file name (falls back to tindex.bak) -/")
 		l.p("def loadStateReadsBackup : Bool := %s", leanBool(c07UsesIdent(funcDecl(tf, "inmemService", "loadState"), "cIdxBackupFileName")))
 
@@ -404,8 +505,12 @@ func init() {
 		if fd := funcDecl(pf, "persister", "savePipes"); fd == nil {
 			problem("pipe.persister.savePipes not found")
 		} else {
+			c07CollectStrConsts(c07ParsePkg("pkg/pipe"))
 			seq := c07FsCalls(pfuncs, fd, map[string]string{}, "cPipesFileName", "", 2)
 			for _, c := range seq {
+				if strings.Contains(c, "?") {
+					problem("pipe.persister.savePipes: file-system call %s is not of a recognised shape", c)
+				}
 				switch c {
 				case "WriteFile(dat)":
 					inPlace = true
@@ -467,6 +572,13 @@ func init() {
 			}
 			removeFirst = removePos != 0 && savePos != 0 && removePos < savePos && !async
 		}
+		npp := funcDecl(ppf, "", "newPPipe")
+		if npp == nil {
+			problem("pipe.newPPipe not found")
+		}
+		l.p("/-- `newPPipe` (every CREATE / ENSURE PIPE and every pipe of the registry at start) refuses a name, source condition or filter")
+		l.p("that is not valid UTF-8 (repair of F-C07-902: they are JSON strings in `pipes.dat`) -/")
+		l.p("def newPPipeRefusesInvalidUtf8 : Bool := %s", leanBool(validGuard(npp, []string{"Name", "TagsCond", "FltCond"})))
 		l.p("/-- `Service.DeletePipe` removes the pipe's position file (`ppipe.delete` → `onDeleteStream`) before it saves the registry,")
 		l.p("both before it returns (84f34ca); false: the registry is saved first, or one of the two runs in its own goroutine -/")
 		l.p("def deletePipeRemovesPositionsBeforeSave : Bool := %s", leanBool(removeFirst))
